@@ -1634,8 +1634,8 @@ class integer_ndarray(variable_ndarray):
                 return prio
 
             else:
-                # self.ndim == 1:
-                return self.ranking()
+                # self.ndim == 1: one row of priorities (magnitudes are ranked, signs are kept)
+                return integer_ndarray([self]).ndint_compress(method=method, axis=0)
         elif method == "rank":
             self = numpy.swapaxes(self, 0, axis)
             if self.ndim > 2:
